@@ -1,5 +1,5 @@
 """C02 - accepted programs never go wrong (type soundness)."""
-from . import machine
+from . import docex, machine
 
 replay_one = machine.replay_one
 
@@ -23,7 +23,11 @@ def run(chk):
         {"id": "snd-x-recursion", "stage": "run", "soundOnly": True, "class": "host-crash/unbounded-recursion",
          "src": ["func f n:num\n    f n+1\nend\nf 1\n"], "expect": {"effects": [], "result": []}},
     ]
-    machine.replay_family(chk, exact + sound + extra, deadline="60s")
+    # repository programs that leave the exact model (sqrt of a non-square, pi ...): the machine's effects up to
+    # that point must be a prefix of the real run, which must not go wrong
+    beyond = docex.corpus(chk, chk.tier, sound_only=True)
+    chk.extra["corpus_programs_beyond_the_model"] = len(beyond)
+    machine.replay_family(chk, exact + sound + extra + beyond, deadline="60s")
     chk.extra["exact_oracle_cases"] = len(exact)
     chk.extra["never_goes_wrong_only_cases"] = len(sound)
     chk.assumptions += [
